@@ -118,6 +118,22 @@ func (s *seriesCursor) ReInitWithShard(tagSet tsi.TagSet, sidIdx, shardIdx int, 
 		if err != nil {
 			return false, err
 		}
+	} else if ok || s.tsmCursor == nil {
+		// the series this cursor has served so far had no file in the time range, so there is no
+		// tsmMergeCursor to reuse: the files must be looked up for this series all the same.
+		if !crossShard {
+			tsmCursor, err = newTsmMergeCursor(s.ctx, sid, filter, rowFilters, ptTags, false, s.span)
+		} else {
+			tsmCursor, err = newTsmMergeCursorWithShard(s.ctx, shardId, sid, filter, rowFilters, ptTags, s.span)
+		}
+		if err != nil {
+			return false, err
+		}
+		if tsmCursor != nil {
+			tsmCursor.SetOps(s.ops)
+			s.tsmCursor = tsmCursor
+			contain = true
+		}
 	}
 	if !contain && memTableRecord == nil {
 		return false, nil
